@@ -306,6 +306,20 @@ class InductionGroup:
         self.n = z3.Length(self.s)
         self.init = z3.SubSeq(self.s, 0, self.n - 1)
         self.s0 = fresh('ind0', vl.SeqVal)   # (a ground empty sequence makes z3's rewriter unfold without end)
+        # a fact  c == term(T)  about a local c (the final value of a variable) is used up front: the goal
+        # then speaks of term(T) itself, so that the induction generalises over both sides
+        goal0 = ob.goal
+        pcs = list(ob.pc)
+        for p in list(pcs):
+            if z3.is_eq(p) and mentions(p, const):
+                a, b = p.arg(0), p.arg(1)
+                for x, y in ((a, b), (b, a)):
+                    if z3.is_const(x) and x.decl().kind() == z3.Z3_OP_UNINTERPRETED and not x.eq(const) \
+                            and not mentions(y, x) and mentions(goal0, x):
+                        goal0 = z3.substitute(goal0, (x, y))
+                        break
+        self.ob = Obligation(ob.name, ob.kind, pcs, goal0, ob.info)
+        ob = self.ob
         self.goal = self.strengthen(ob.goal)
         self.h0 = [p for p in ob.pc if not mentions(p, const)]
         self.cands = [p for p in ob.pc if mentions(p, const)]
@@ -355,7 +369,8 @@ class InductionGroup:
 
     def induction_obligations(self, closed_flags):
         """base and step, for the goal as stated (.ind-) and, where it differs, for the goal strengthened to
-        the equality of the differing arguments (.indS-); either pair proves the obligation"""
+        the equality of the differing arguments (.indS-); or base, step and final of the prefix induction
+        (.indP-); any complete set proves the obligation"""
         hyp = list(self.h0) + [c for c, ok in zip(self.cands, closed_flags) if ok]
         hs = [self.at(h, self.s) for h in hyp]
         # quantified hypotheses are also given instantiated at the last index (what one unfolding needs)
@@ -364,6 +379,24 @@ class InductionGroup:
         variants = [('ind', self.ob.goal)]
         if not self.goal.eq(self.ob.goal):
             variants.append(('indS', self.goal))
+        # prefix induction: P(k) = goal with T replaced by its prefix of length k.  Nothing is generalised (the
+        # whole path condition stays available, and definitions that capture T keep talking about T):
+        #   pc |- P(0);   pc, 0 <= n < len T, P(n) |- P(n+1);   pc, P(len T) |- goal
+        from .symex import fresh as _fresh
+        T = self.const
+        n = _fresh('indn', z3.IntSort())
+
+        def P(k):
+            return z3.substitute(self.ob.goal, (T, z3.SubSeq(T, 0, k)))
+        pre_n, pre_n1 = z3.SubSeq(T, 0, n), z3.SubSeq(T, 0, n + 1)
+        facts = [z3.SubSeq(pre_n1, 0, n) == pre_n, pre_n1[n] == T[n], z3.Length(pre_n1) == n + 1,
+                 z3.Length(pre_n) == n, pre_n1 == z3.Concat(pre_n, z3.Unit(T[n]))]
+        pcs = list(self.ob.pc)
+        out.append(self.Ob('%s.indP-base' % self.ob.name, self.ob.kind, pcs, P(z3.IntVal(0)), self.ob.info))
+        out.append(self.Ob('%s.indP-step' % self.ob.name, self.ob.kind,
+                           pcs + [n >= 0, n < z3.Length(T), P(n)] + facts, P(n + 1), self.ob.info))
+        out.append(self.Ob('%s.indP-final' % self.ob.name, self.ob.kind,
+                           pcs + [P(z3.Length(T)), z3.SubSeq(T, 0, z3.Length(T)) == T], self.ob.goal, self.ob.info))
         for tag, goal in variants:
             out.append(self.Ob('%s.%s-base' % (self.ob.name, tag), self.ob.kind,
                                [z3.Length(self.s0) == 0] + [self.at(h, self.s0) for h in hyp], self.at(goal, self.s0),
